@@ -215,6 +215,9 @@ type SutRec struct {
 	innerA actypes.AspectLogger
 	env    *avm.EVM
 	lastOp byte
+	// Annot lets the owner annotate enter/start events online (code size of the target,
+	// precompile flag, join-point switch) by reading the StateDB at that instant.
+	Annot func(e *Ev)
 }
 
 var (
@@ -251,7 +254,11 @@ func (r *SutRec) CaptureStart(env *avm.EVM, from common.Address, to common.Addre
 	if r.inner != nil {
 		r.inner.CaptureStart(env, from, to, create, input, gas, value)
 	}
-	r.L.Add(Ev{Ex: r.Ex, K: evStart, From: from, To: to, Create: create, In: cp(input), Gas: gas, Value: cpBig(value)})
+	e := Ev{Ex: r.Ex, K: evStart, From: from, To: to, Create: create, In: cp(input), Gas: gas, Value: cpBig(value)}
+	if r.Annot != nil {
+		r.Annot(&e)
+	}
+	r.L.Add(e)
 }
 
 func (r *SutRec) CaptureEnd(output []byte, gasUsed uint64, err error) {
@@ -265,7 +272,11 @@ func (r *SutRec) CaptureEnter(typ avm.OpCode, from common.Address, to common.Add
 	if r.inner != nil {
 		r.inner.CaptureEnter(typ, from, to, input, gas, value)
 	}
-	r.L.Add(Ev{Ex: r.Ex, K: evEnter, Typ: byte(typ), From: from, To: to, In: cp(input), Gas: gas, Value: cpBig(value)})
+	e := Ev{Ex: r.Ex, K: evEnter, Typ: byte(typ), From: from, To: to, In: cp(input), Gas: gas, Value: cpBig(value)}
+	if r.Annot != nil {
+		r.Annot(&e)
+	}
+	r.L.Add(e)
 }
 
 func (r *SutRec) CaptureExit(output []byte, gasUsed uint64, err error) {
